@@ -57,6 +57,14 @@ primitive_types = {"8 bit integer unsigned": "u8",
                    "64 bit float": "r64"}
 
 
+def require_attributes(xml_elem, *names):
+    """ Definitions with a missing mandatory attribute cannot be turned into model nodes. """
+    for name in names:
+        if not xml_elem.get(name):
+            location = "%s %s" % (xml_elem.tag, xml_elem.get("name") or "")
+            raise model.ParseError([(location.strip(), "missing attribute '%s'" % name)])
+
+
 def make_include(xml_elem, process_file, warn):
     if "include" in xml_elem.tag:
         path = xml_elem.get("href")
@@ -74,6 +82,7 @@ def get_docstr(xml_elem):
 
 
 def make_constant(xml_elem):
+    require_attributes(xml_elem, "name", "value")
     return model.Constant(
         xml_elem.get("name"),
         expand_operators(xml_elem.get("value")),
@@ -82,6 +91,10 @@ def make_constant(xml_elem):
 
 
 def make_typedef(xml_elem):
+    require_attributes(xml_elem, "name")
+    if "primitiveType" in xml_elem.attrib and xml_elem.get("primitiveType") not in primitive_types:
+        raise model.ParseError([("typedef %s" % xml_elem.get("name"),
+                                 "unknown primitiveType '%s'" % xml_elem.get("primitiveType"))])
     if "type" in xml_elem.attrib:
         return model.Typedef(
             xml_elem.get("name"),
@@ -106,8 +119,10 @@ def make_enum(xml_elem):
             values.add(m.value)
 
     if len(xml_elem):
+        require_attributes(xml_elem, "name")
         members = []
         for member in xml_elem:
+            require_attributes(member, "name", "value")
             value = member.get('value')
             try:
                 int_value = int(value, 0)
@@ -127,6 +142,7 @@ def make_enum(xml_elem):
 
 
 def make_struct_members(xml_elem, dynamic_array=False):
+    require_attributes(xml_elem, "name", "type")
     xml_elem_name = xml_elem.get("name")
     xml_elem_type = xml_elem.get("type")
     optional = xml_elem.get("optional")
@@ -168,6 +184,7 @@ def make_struct_members(xml_elem, dynamic_array=False):
 
 def make_struct(xml_elem, last_member_array_is_dynamic=False):
     if len(xml_elem):
+        require_attributes(xml_elem, "name")
         members = []
         for member in xml_elem:
             for sub_ in make_struct_members(member, last_member_array_is_dynamic):
@@ -177,8 +194,10 @@ def make_struct(xml_elem, last_member_array_is_dynamic=False):
 
 def make_union(xml_elem):
     if len(xml_elem):
+        require_attributes(xml_elem, "name")
         members = []
         for member in xml_elem:
+            require_attributes(member, "name", "type", "discriminatorValue")
             members.append(model.UnionMember(
                 member.get("name"),
                 member.get("type"),
